@@ -1,6 +1,7 @@
 // Engine core: case (de)serialisation, forked execution of predicates, outcome classification,
 // statistics.  No rapidcheck in here (the TSan / replay-only binaries link this file alone).
 #include "engine_core.hpp"
+#include <atomic>
 #include <cstdarg>
 #include <cinttypes>
 #include <cerrno>
@@ -111,17 +112,17 @@ void fail(const std::string &msg) {
 }
 
 static long g_tick_ceiling = 300000;
-static long g_ticks[8];
+static std::atomic<long> g_ticks[8];   // the tick hook is called from the library's worker threads
 static void tick_fn(int site) {
-  if (site >= 0 && site < 8) g_ticks[site]++;
-  long tot = 0; for (int i = 0; i < 8; i++) tot += g_ticks[i];
+  if (site >= 0 && site < 8) g_ticks[site].fetch_add(1, std::memory_order_relaxed);
+  long tot = 0; for (int i = 0; i < 8; i++) tot += g_ticks[i].load(std::memory_order_relaxed);
   if (tot > g_tick_ceiling) {
     proto("X tick-ceiling site=" + std::to_string(site));
     _exit(98);
   }
 }
 void set_tick_ceiling(long n) { g_tick_ceiling = n; }
-long ticks(int site) { return site >= 0 && site < 8 ? g_ticks[site] : 0; }
+long ticks(int site) { return site >= 0 && site < 8 ? g_ticks[site].load() : 0; }
 void reset_ticks() { for (auto &t : g_ticks) t = 0; }
 
 // ------------------------------------------------------------------ known findings
@@ -174,9 +175,15 @@ static std::string sanitizer_summary(const std::string &err) {
         line.find("WARNING: ThreadSanitizer") != std::string::npos ||
         line.find("ERROR: UndefinedBehaviorSanitizer") != std::string::npos) {
       if (out.size() < 600) out += line + " | ";
-    } else if (line.find("    #") != std::string::npos && frames < 6 && !out.empty()) {
+    } else if (line.find("    #") != std::string::npos && frames < 10 && !out.empty()) {
       auto p = line.find(" in ");
       if (p != std::string::npos) { out += line.substr(p + 4) + " < "; frames++; }
+      else {   // ThreadSanitizer frame: "    #0 function file:line (module+0x..)"
+        auto q = line.find('#'); auto sp = line.find(' ', q);
+        if (sp != std::string::npos) { std::string rest = line.substr(sp + 1); auto par = rest.find(" ("); out += rest.substr(0, par) + " < "; frames++; }
+      }
+    } else if ((line.find("Previous ") != std::string::npos || line.find("Write of size") != std::string::npos || line.find("Read of size") != std::string::npos) && out.size() < 900) {
+      out += "| " + line + " ";
     }
   }
   if (out.empty()) {
@@ -249,7 +256,7 @@ Outcome run_case(const Sub &s, const Case &c) {
     libsci_verif_rng_hook = nullptr;
     libsci_verif_fold_hook = nullptr;
     signal(SIGALRM, SIG_DFL);
-    alarm((unsigned)g_case_timeout);
+    alarm((unsigned)(s.timeout_s > 0 ? s.timeout_s : g_case_timeout));
     s.pred(c);
     proto("O");
     fflush(stdout);
